@@ -951,6 +951,46 @@ func ruleCreditIdentity(c *Ctx, rule string) {
 		}
 		c.check(okGuard, rule, name+": callback not suppressed for positive credit", w.At(upd), "only guard: amount > 0", "the window-update callback is guarded by a condition other than amount > 0: some credit would never be returned")
 		_ = updFn
+		// ... and dequeue is the ONLY place that returns credit: no other method of the receiver invokes the callback or
+		// increases the window (credit for data the application never consumed — e.g. for frames discarded by cancel —
+		// lets the peer send a further window that nobody will read)
+		inDeq := map[*ssa.Function]bool{}
+		for _, f := range cands {
+			inDeq[f] = true
+		}
+		var stray ssa.Instruction
+		for _, f := range w.Funcs {
+			if isGenericTemplate(f) || inDeq[f] || inDeq[regionRoot(f)] {
+				continue
+			}
+			if rn := recvNamed(f); rn == nil || rn.Obj() != r.fc.Obj() {
+				continue
+			}
+			if !w.sameTypeArgs(f, outer) {
+				continue // another instantiation: judged with its own dequeue
+			}
+			allInstrsLocal(f, func(in ssa.Instruction) {
+				if call, ok := in.(*ssa.Call); ok && staticCallee(call) == nil && !call.Call.IsInvoke() {
+					if fr, _, isField := loadedField(call.Call.Value); isField {
+						if ufr, _, isU := loadedField(upd.Call.Value); isU && fr == ufr {
+							stray = in
+						}
+					}
+				}
+				if st, ok := in.(*ssa.Store); ok {
+					if fr, _, isF := fieldOfAddr(st.Addr); isF && fr == win {
+						if b, isB := st.Val.(*ssa.BinOp); isB && b.Op == token.ADD {
+							stray = in
+						}
+					}
+				}
+			})
+		}
+		at := w.Pos(fn.Pos())
+		if stray != nil {
+			at = w.At(stray)
+		}
+		c.check(stray == nil, rule, name+": credit is returned only by dequeue", at, "no other method of the receiver invokes the update callback or adds to the window", "a method of the flow-controlled receiver other than dequeue returns credit (calls the window-update callback or increases the window): the peer is granted credit for data the application did not consume and may send a further window that is buffered and never read")
 	}
 	// measure closures
 	n := 0
